@@ -496,5 +496,5 @@ PROPS = {
                             "proved parts: the modelled rules (funcOutput, field selection, cycle check) are total functions; zeroValue is total over the regenerated kind table"]},
 }
 
-HOOK_COMMITS = ["fc0854c", "b8ca607", "2f47b21", "272baf3", "7ffb9a5"]
+HOOK_COMMITS = ["fc0854c", "b8ca607", "2f47b21", "272baf3", "7ffb9a5", "dab7f62"]
 NOT_YET = {}
